@@ -102,6 +102,14 @@ def run(ck):
         l1 = [l for l in loops(ap) if ap.is_in(blk[0], l)]
         l2 = [l for l in loops(ap) if ap.is_in(incs[0], l)]
         same_loop = len(incs) == 1 and l1 and l2 and l1[-1] == l2[-1] and len(l2) == 1
+    # all keystream comes from that one call, driven by the caller's counter: no other function generates blocks (a "single block"
+    # helper with its own counter), and apply has no exit that bypasses the block loop
+    elsewhere = [(g_, i) for g_ in P.fns for i in g_.walk() if g_.nodes[i].get('callee') == AN + 'chacha20_block' and g_ is not ap]
+    ck.ob('C09.apply', 'C09.apply/sole-keystream-site', not elsewhere, elsewhere[0][0].loc(elsewhere[0][1]) if elsewhere else ap.loc(),
+          'chacha20_block is called from ChaCha20::apply only (with the running counter)')
+    early = [i for i in ap.walk() if ap.nodes[i]['k'] == 'ReturnStmt']
+    ck.ob('C09.apply', 'C09.apply/no-early-exit', not early, ap.loc(early[0]) if early else ap.loc(),
+          'ChaCha20::apply has a single exit after the block loop: no input length takes a separate path')
     from sa.paths import local_writes
     other_w = [w for w in local_writes(ap, ap.params[4]['d']) if w not in incs]
     ck.ob('C09.apply', 'C09.apply/one-block-per-counter', okb and same_loop and not other_w and 'unsigned int' in ap.params[4]['t'], ap.loc(),
